@@ -315,6 +315,34 @@ def stage_shape(repo: Repo, chk: Check) -> None:
                 fills["in"] = True
             if tgt == out_l and f"not {flag}" in facts:
                 fills["out"] = True
+    # ... on EVERY path: an occurrence of a buffer that is not recorded under its role (e.g. because the same buffer was already seen in the
+    # other role) makes an in-place stage `ins(%a, %acc) outs(%acc)` look read-only to the buffer duplication, which then keeps one copy
+    def _appends(st: ast.stmt, lst: str) -> bool:
+        return not isinstance(st, (ast.If, ast.For, ast.While, ast.FunctionDef)) and any(
+            isinstance(n, ast.Call) and callee_name(n) in ("append", "insert", "extend") and isinstance(n.func, ast.Attribute) and ast.unparse(n.func.value) == lst for n in ast.walk(st))
+
+    efl = Flow(ro, repo, events={"in": lambda st: _appends(st, in_l), "out": lambda st: _appends(st, out_l)})
+    ends = [a for a in (efl.end_state.alts if efl.end_state is not None else [])]
+    for s_ in efl.stmts(ast.Return):
+        if s_.reachable:
+            ends += list(s_.state.alts)
+    if not ends:
+        raise AnalysisError(f"{ro.where}: no exit of rewrite_operand reached")
+    unrecorded = []
+    for alt in ends:
+        facts = set(alt.facts)
+        role = "in" if flag in facts else "out" if f"not {flag}" in facts else None
+        lst = in_l if role == "in" else out_l
+        already = role is not None and any(t.replace(" ", "") in (f"{ro.param(0)}in{lst}",) for t in facts)
+        if role is None:
+            if not (f"__event__('in')" in facts or f"__event__('out')" in facts):
+                unrecorded.append(sorted(t for t in facts if not t.startswith("__event__"))[:3])
+        elif f"__event__({role!r})" not in facts and not already:
+            unrecorded.append(sorted(t for t in facts if not t.startswith("__event__"))[:3])
+    chk.result(not unrecorded, "C15.stage-shape", f"{ro.key}:every-occurrence-recorded", ro.where,
+               "every path through rewrite_operand records the buffer in the list of its role",
+               f"rewrite_operand can return without recording the operand under its role (path conditions {unrecorded[:2]}): a buffer a stage both reads and writes is then "
+               "registered in one role only, PipelineDuplicateBuffers sees no writer (or no reader) and keeps a single copy that two stages use in the same barrier phase")
     chk.result(fills["in"] and fills["out"] and in_l != out_l,
                "C15.stage-shape", f"{f.key}:stage-operands", so[0].where() if so else f.where, "StageOp gets (inputs, outputs, stage number): the first list collects the input buffers, the second the output buffers",
                f"the lists handed to StageOp are not filled as inputs (under `{flag}`) / outputs (under `not {flag}`): {fills}")
